@@ -5,10 +5,11 @@ import Driver.SamplerCmd
 import Driver.MirpCmd
 import Driver.FormCmd
 import Driver.ExportCmd
+import Driver.CacheCmd
 /-! `vrpdriver`: reads request lines from stdin, writes one reply line each -/
 open Vrp Vrp.Proto Vrp.Drv
 
-def allCmds : List (String × P String) := toolCmds ++ graphCmds ++ samplerCmds ++ mirpCmds ++ formCmds ++ exportCmds
+def allCmds : List (String × P String) := toolCmds ++ graphCmds ++ samplerCmds ++ mirpCmds ++ formCmds ++ exportCmds ++ cacheCmds
 
 def handle (line : String) : String :=
   let toks := (line.splitOn " ").filter (· ≠ "")
